@@ -1050,13 +1050,29 @@ def bloch_messiah(S, tol=1e-10, rounding=9):
         # See Appendix B2 of Serafini's book for more details.
         u_list, v_list = [], []
 
+        unit_group = None
         for start_i, stop_i in zip(start_is, stop_is):
+            if stop_i - start_i > 1 and np.round(st[start_i, start_i], rounding) == 1:
+                # several unsqueezed modes: s = 1/s = 1, the basis of this subspace returned by
+                # takagi is not split into conjugate halves; it is rotated as a whole below
+                unit_group = (start_i, stop_i)
+                u_list = u_list + [np.identity(stop_i - start_i)]
+                v_list = v_list + [np.identity(stop_i - start_i)]
+                continue
             x = qomega[start_i:stop_i, n + start_i : n + stop_i].real
             u_svd, _s_svd, v_svd = np.linalg.svd(x)
             u_list = u_list + [u_svd]
             v_list = v_list + [v_svd.T]
 
         pmat1 = block_diag(*(u_list + v_list))
+
+        if unit_group is not None:
+            idx = list(range(*unit_group)) + list(range(n + unit_group[0], n + unit_group[1]))
+            # the symplectic form restricted to the subspace is antisymmetric and orthogonal: its
+            # real Schur form consists of 2x2 blocks [[0, t], [-t, 0]] with t = +-1
+            tmat, zmat = schur(qomega[np.ix_(idx, idx)].real, output="real")
+            signs = np.sign(np.diag(tmat, 1)[0::2])
+            pmat1[np.ix_(idx, idx)] = np.hstack([zmat[:, 0::2], zmat[:, 1::2] * signs])
 
         st1 = pmat1.T @ pmat @ np.diag(ss) @ pmat @ pmat1
         ut1 = uss @ pmat @ pmat1
